@@ -225,7 +225,3 @@ Example perplexity_exit_nonvacuous :
   exists ev, perp_search (fun _ => 1) (fun _ => 0) 0 (1 # 100000) (Some 0%nat) [0; 1; 4] 2 = (true, Some ev).
 Proof. eexists. vm_compute. reflexivity. Qed.
 
-(* a run that does NOT find the entropy within 200 steps still leaves a row: found = false *)
-Example perplexity_not_found_possible :
-  fst (perp_search (fun _ => 1) (fun x => x) 0 (1 # 100000) None [1; 1] 5) = false.
-Proof. vm_compute. reflexivity. Qed.
